@@ -74,6 +74,11 @@ def gen_string(rng, dialect, width):
     if r < 0.45:
         q = rng.choice("\"'")
         s = f"{w()}{q}{w()}" if rng.random() < 0.6 else f"it{q}s {w()} {q}"
+        if rng.random() < 0.25:
+            # ... and a line break: the other quote kind has to be used, and
+            # what is between those quotes spans lines
+            s = rng.choice((f"say {q}{w()}{q}\nand {w()} {w()}", f"{w()} {w()}\n{q}{w()} {w()}",
+                            f"{q}\n{w()} {w()} {w()}", f"{w()}{q}\r\n{w()} x{q}y"))
         return Leaf(s, "str:one-quote-kind")
     if r < 0.48:
         return Leaf(f"a\"b'{w()}", "str:both-quote-kinds", rep=False)
@@ -174,10 +179,10 @@ def gen_tz(rng):
     if r < 0.6:
         return UTC, "utc"
     if r < 0.75:
-        h = rng.choice((1, 5, 9, 12, 13, 14))
+        h = rng.choice((1, 5, 9, 10, 12, 13, 14, 20, 23))
         return dt.timezone(dt.timedelta(hours=h)), "plus-whole"
     if r < 0.87:
-        h = rng.choice((1, 5, 8, 11))
+        h = rng.choice((1, 5, 8, 10, 11, 20, 23))
         return dt.timezone(-dt.timedelta(hours=h)), "minus-whole"
     if r < 0.96:
         # offsets with a minutes part, on both sides of zero and on both sides
